@@ -683,4 +683,120 @@ theorem map_overwritten_run_facts :
 
 end NonVacuityB
 
+/-! ### Non-vacuity of sections 5 and 6
+
+Run A continued (`Array.Remove`, `Array.Set`, `SetType` through the handle of the detached array `X`,
+from the state `c6`) and run C (a detached MAP root `M`: `OrderedMap.Set`, `OrderedMap.Remove`). -/
+section NonVacuityC
+open Atree.C11Scenario
+open Atree.OkScenario (D pl cont?_getD K1 keyOk_K1)
+
+/-- the state after the overwrite satisfies the hypotheses of section 6 for `X` -/
+theorem detached_X_hyps : WorldOk' D c6.2.1 c6.2.2.ctr ∧ DetachedRoot c6.2.1 X := by
+  obtain ⟨_, _, _, _, h3, h4, _⟩ := overwritten_instance
+  exact ⟨h4, h3.1⟩
+
+/-- `detached_arrRemove_writes_only_self`, `detached_arrSet_writes_only_self`,
+    `detached_setType_writes_only_self` apply to the three continuations of run A; in each of them
+    the former parent `R` is untouched — container (content, sizes, form), closure, index table —
+    and the only storage effect is `store X`. -/
+theorem detached_X_instances :
+    (c6.2.1.arrRemove X 0 c6.2.2 = .ok c8 ∧ c8.2.2.eff = c6.2.2.eff ++ [.store X] ∧
+      c8.2.1.cont? R = c6.2.1.cont? R ∧ AList.find? c8.2.1.hinfo R = AList.find? c6.2.1.hinfo R ∧
+      AList.find? c8.2.1.mutIdx R = AList.find? c6.2.1.mutIdx R) ∧
+    (c6.2.1.arrSet X 0 (pl 9) c6.2.2 = .ok c9 ∧ c9.2.2.eff = c6.2.2.eff ++ [.store X] ∧
+      c9.2.1.cont? R = c6.2.1.cont? R ∧ AList.find? c9.2.1.hinfo R = AList.find? c6.2.1.hinfo R ∧
+      AList.find? c9.2.1.mutIdx R = AList.find? c6.2.1.mutIdx R) ∧
+    (c6.2.1.setType X 5 c6.2.2 = .ok c10 ∧ c10.2.eff = c6.2.2.eff ++ [.store X] ∧
+      c10.1.cont? R = c6.2.1.cont? R ∧ c10.1.hinfo = c6.2.1.hinfo ∧ c10.1.mutIdx = c6.2.1.mutIdx) := by
+  obtain ⟨H, hx⟩ := detached_X_hyps
+  have HK : WorldOkKept D (fun _ => False) c6.2.1 c6.2.2.ctr := H
+  have hRX : R ≠ X := by decide
+  refine ⟨?_, ?_, ?_⟩
+  · obtain ⟨a, a', old1, cx1, ov, _, _, hold1, _, _, hov, _, hS⟩ :=
+      detached_arrRemove_writes_only_self D _ c6.2.1 X 0 c6.2.2 c8.1 c8.2.1 c8.2.2 HK hx runA8
+    have hR : some R ≠ ov := by
+      intro he
+      have h1 := hov R he.symm
+      have h2 : c8.1.pay = .val 1 := by decide
+      have h3 : c8.1.pay = old1.pay := by assumption
+      rw [h3, h1] at h2; cases h2
+    exact ⟨runA8, by decide, (hS R hRX hR).1, (hS R hRX hR).2.1, (hS R hRX hR).2.2⟩
+  · obtain ⟨a, a', old1, cx1, ov, _, _, hold1, _, _, hov, _, hS⟩ :=
+      detached_arrSet_writes_only_self D _ c6.2.1 X 0 ⟨20, .val 9⟩ c6.2.2 c9.1 c9.2.1 c9.2.2 HK hx
+        ⟨⟨by decide, 9, rfl⟩, by decide⟩ runA9
+    have hR : some R ≠ ov := by
+      intro he
+      have h1 := hov R he.symm
+      have h2 : c9.1.pay = .val 1 := by decide
+      have h3 : c9.1.pay = old1.pay := by assumption
+      rw [h3, h1] at h2; cases h2
+    exact ⟨runA9, by decide, (hS R hRX hR).1, (hS R hRX hR).2.1, (hS R hRX hR).2.2⟩
+  · obtain ⟨c, c', _, _, _, _, _, he, hz, hh, hm⟩ :=
+      detached_setType_writes_only_self D c6.2.1 X 5 c6.2.2 c10.1 c10.2 _ H hx runA10
+    exact ⟨runA10, by rw [he]; rfl, hz R hRX, hh, hm⟩
+
+/-- section 5 applies along run A: `X` is still a detached root after the later insert through its
+    own handle, the invariant still holds, so every later notification from `X` is a no-op too. -/
+theorem detached_X_stays_detached :
+    WorldOk' D c7.1 c7.2.ctr ∧ DetachedRoot c7.1 X ∧
+    (∀ fuel cx2 w2 cx2', notifyParent fuel c7.1 X cx2 = .ok (w2, cx2') →
+      cx2' = cx2 ∧ (w2 = c7.1 ∨ w2 = { c7.1 with hinfo := AList.erase c7.1.hinfo X })) := by
+  obtain ⟨H, hx⟩ := detached_X_hyps
+  have hh : HandleOk c6.2.1 X := HandleOk.root _ hx.2
+  have hv : WValOk c6.2.1 X (maxInlineArr c6.2.1.T) (pl 2) := ⟨⟨by decide, 2, rfl⟩, by decide⟩
+  have H' := (C10W.worldOk'_arrInsert D _ X 1 _ _ _ _ H hh hv runA7).1
+  have hx' := detachedRoot_arrInsert D _ X 1 _ _ _ _ X H hh hv runA7 hx (fun wr h => by cases h)
+  exact ⟨H', hx', detached_root_notification_is_noop D _ _ X H' hx'⟩
+
+/-- Run C: `Array.Remove R 0` detaches the inlined map `M`; the hypotheses of
+    `removed_child_leaves_parent_unchanged` are met, hence `M` is a detached root in a valid world,
+    and its closure names `R`, not `M` (`hself`). -/
+theorem detached_M_hyps :
+    WorldOk' D g5.2.1 g5.2.2.ctr ∧ DetachedRoot g5.2.1 M ∧
+    (∀ hi, AList.find? g5.2.1.hinfo M = some hi → hi.parent ≠ M) ∧
+    (g4.2.1.cont? M).map Cont.isInlined = some true := by
+  have hc := cont?_getD (w := g4.2.1) (x := M) (.arr (Arr.new 0 0 Scenario.cx0).1) (by decide)
+  obtain ⟨_, _, h3, h4, _⟩ := removed_child_leaves_parent_unchanged D g4.2.1 R 0 g4.2.2 g5.1 g5.2.1 g5.2.2 M _
+    okC4 handleR4 runC5 (by decide) hc
+  refine ⟨h4, h3.1, fun hi hh => ?_, by decide⟩
+  have : AList.find? g5.2.1.hinfo M = some ⟨R, none, 117, 0⟩ := by decide
+  rw [this] at hh; cases hh
+  decide
+
+/-- `detached_mapSet_writes_only_self` / `detached_mapRemove_writes_only_self` apply to the two
+    continuations of run C: the former parent `R` is untouched and the only storage effect is
+    `store M`. -/
+theorem detached_M_instances :
+    (g5.2.1.mapSet M K1 (pl 2) g5.2.2 = .ok g6 ∧ g6.2.2.eff = g5.2.2.eff ++ [.store M] ∧
+      g6.2.1.cont? R = g5.2.1.cont? R ∧ AList.find? g6.2.1.hinfo R = AList.find? g5.2.1.hinfo R ∧
+      AList.find? g6.2.1.mutIdx R = AList.find? g5.2.1.mutIdx R) ∧
+    (g5.2.1.mapRemove M K1 g5.2.2 = .ok g7 ∧ g7.2.2.2.eff = g5.2.2.eff ++ [.store M] ∧
+      g7.2.2.1.cont? R = g5.2.1.cont? R ∧ AList.find? g7.2.2.1.hinfo R = AList.find? g5.2.1.hinfo R ∧
+      AList.find? g7.2.2.1.mutIdx R = AList.find? g5.2.1.mutIdx R) := by
+  obtain ⟨H, hx, hself, _⟩ := detached_M_hyps
+  have HK : WorldOkKept D (fun _ => False) g5.2.1 g5.2.2.ctr := H
+  have hRM : R ≠ M := by decide
+  refine ⟨?_, ?_⟩
+  · obtain ⟨m, m', old1, cx1, ov, _, _, hpay, hov, _, hS⟩ :=
+      detached_mapSet_writes_only_self D _ g5.2.1 M K1 ⟨20, .val 2⟩ g5.2.2 g6.1 g6.2.1 g6.2.2 _ HK hx hself runC6
+    have hR : some R ≠ ov := by
+      intro he
+      obtain ⟨o, ho, hpo⟩ := hov R he.symm
+      have h2 : g6.1.map (·.pay) = some (.val 1) := by decide
+      rw [hpay, ho] at h2
+      simp only [Option.map_some, Option.some.injEq] at h2
+      rw [hpo] at h2; cases h2
+    exact ⟨runC6, by decide, (hS R hRM hR).1, (hS R hRM hR).2.1, (hS R hRM hR).2.2⟩
+  · obtain ⟨m, m', rv1, cx1, ov, _, _, hpay, hov, _, hS⟩ :=
+      detached_mapRemove_writes_only_self D _ g5.2.1 M K1 g5.2.2 g7.1 g7.2.1 g7.2.2.1 g7.2.2.2 _ HK hx hself runC7
+    have hR : some R ≠ ov := by
+      intro he
+      have h1 := hov R he.symm
+      have h2 : g7.2.1.pay = .val 1 := by decide
+      rw [hpay, h1] at h2; cases h2
+    exact ⟨runC7, by decide, (hS R hRM hR).1, (hS R hRM hR).2.1, (hS R hRM hR).2.2⟩
+
+end NonVacuityC
+
 end Atree.C11
